@@ -110,7 +110,10 @@ def p_grids(N, cs, problems, res):
                 eb = 0 if b == 0 else (2 if b == n else 1)
                 sba = (b > a) - (b < a)
                 for c, Pf in enumerate(vals):
-                    P = float(f(Po, Ph, Pf))
+                    try:
+                        P = float(f(Po, Ph, Pf))
+                    except Exception:  # noqa: BLE001
+                        P = float("nan")
                     app(P)
                     if not (0.0 <= P <= 1.0) or (b == a and P != Pf) or (c == b and abs(P - Po) > 1e-12):
                         check_P(float(Po), float(Ph), float(Pf), P, problems, {"Po": f"{a}/{n}", "Ph": f"{b}/{n}", "Pf": f"{c}/{n}"})
@@ -152,7 +155,10 @@ def p_near_isclose(rng, count, cs, problems, res):
             Ph = Po
         Pf = rng.choice([Ph, Po, rng.randint(0, 2**20) / 2**20, 0.0, 1.0])
         case = {"Po": C.rat(Po), "Ph": C.rat(Ph), "Pf": C.rat(Pf)}
-        P = float(f(np.float64(Po), np.float64(Ph), np.float64(Pf)))
+        try:
+            P = float(f(np.float64(Po), np.float64(Ph), np.float64(Pf)))
+        except Exception:  # noqa: BLE001
+            P = float("nan")
         check_P(Po, Ph, Pf, P, problems, case)
         res.count(("P-near", Ph > Po, Pf == Ph, d > tol), True)
 
@@ -187,7 +193,13 @@ def scale_cases(rng, N, extra, cs, problems, res):
         for u in range(N + 1):
             for n in range(N + 1):
                 if l + u > n:
-                    out = f(l, u, n)
+                    try:
+                        out = f(l, u, n)
+                    except Exception as ex:  # noqa: BLE001
+                        impl.append("error:" + type(ex).__name__)
+                        if l <= n and u <= n:  # the situation step6 can be in
+                            problems.append(("rescaling raises " + type(ex).__name__, {"kind": "scale", "l": l, "u": u, "n": n}))
+                        continue
                     impl.append(f"{out[0]}:{out[1]}")
                     if out[0] + out[1] != n or out[0] < 0 or out[1] < 0:
                         check_scale(l, u, n, out, problems)
@@ -201,7 +213,11 @@ def scale_cases(rng, N, extra, cs, problems, res):
         u = rng.randint(max(0, n - l + 1), n) if n - l + 1 <= n else n
         if l + u <= n:
             continue
-        out = f(l, u, n)
+        try:
+            out = f(l, u, n)
+        except Exception as ex:  # noqa: BLE001
+            problems.append(("rescaling raises " + type(ex).__name__, {"kind": "scale", "l": l, "u": u, "n": n}))
+            continue
         check_scale(l, u, n, out, problems)
         res.count(("scale-large", l * 7 // (n + 1), u * 7 // (n + 1)), True)
         cs.add(f"scale {l} {u} {n}", "scale", {"l": l, "u": u, "n": n}, exact(f"{out[0]} {out[1]}"))
@@ -223,12 +239,16 @@ def nr_cases(rng, small, count, big, cs, problems, res):
                 m = m[np.random.RandomState(rng.randint(0, 2**31 - 1)).permutation(n)]
             ms.append(m)
         case = {"adjust": adj, "obs": f"{ko}/{no}", "cm_hist": f"{kh}/{nh}", "cm_future": f"{kf}/{nf}"}
-        with warnings.catch_warnings():
-            warnings.simplefilter("ignore")
-            got = debs[adj]._step6_get_nr_of_entries_to_set_to_bound(*ms)
-            Po, Ph, Pf = pct(ms[0]), pct(ms[1]), pct(ms[2])
-            P = fP(Po, Ph, Pf) if adj else Po
-        want = round(nf * P)
+        try:
+            with warnings.catch_warnings():
+                warnings.simplefilter("ignore")
+                got = debs[adj]._step6_get_nr_of_entries_to_set_to_bound(*ms)
+                Po, Ph, Pf = pct(ms[0]), pct(ms[1]), pct(ms[2])
+                P = fP(Po, Ph, Pf) if adj else Po
+            want = round(nf * P)
+        except Exception as ex:  # noqa: BLE001
+            problems.append(("number of entries to set to the bound: raises " + type(ex).__name__, {"kind": "nr", **case}))
+            return
         if isinstance(got, bool) or not isinstance(got, (int, np.integer)) or got != want or not 0 <= got <= nf:
             problems.append(("number of entries to set to the bound != round(n * P) or outside 0..n",
                              {"kind": "nr", **case, "P": float(P), "round(n*P)": int(want), "got": repr(got)}))
